@@ -355,11 +355,38 @@ pub fn c01_enc_op<S: Src>(s: &mut S, class: u8, oi: u8, as_ident: bool) {
             Err(e) => s.note_s("process", &format!("Err({})", e)),
         }
         s.note_s("reference", &format!("{:x?}", expect));
-        if !ok || info_len != ref_len(&op, avr8l) {
+        if !ok {
             match api_confirm(oi, n, &a, addr, avr8l, expect) {
                 Some(true) => println!("API-CONFIRMED"),
                 Some(false) => println!("API-NOT-CONFIRMED"),
                 None => println!("API-SKIPPED"),
+            }
+        } else if info_len != ref_len(&op, avr8l) {
+            // the bytes are right but pass 1 would account a different length: visible through
+            // the public API as a label after the instruction that does not equal the position
+            // of the next item
+            let mut src = String::new();
+            if avr8l && is_direct(oi) {
+                src.push_str(".device ATtiny20\n");
+            }
+            if addr <= 1000 {
+                if addr > 0 {
+                    src.push_str(&format!(".org {}\n", addr));
+                }
+                src.push_str(&asm_text(oi, n, &a));
+                src.push_str("\nafter:\n.dw after\n");
+                println!("NOTE: api_source={:?}", src);
+                match std::panic::catch_unwind(|| avra_lib::builder::build_str(&src)) {
+                    Ok(Ok(br)) => {
+                        let pos = (br.code.len() / 2).saturating_sub(1);
+                        let val = br.code[br.code.len() - 2] as usize | ((br.code[br.code.len() - 1] as usize) << 8);
+                        println!("NOTE: api_result=label value {} , item emitted at word {}", val, pos);
+                        if val != pos { println!("API-CONFIRMED") } else { println!("API-NOT-CONFIRMED") }
+                    }
+                    _ => println!("API-SKIPPED"),
+                }
+            } else {
+                println!("API-SKIPPED");
             }
         }
     }
